@@ -300,6 +300,28 @@ class CertProperty:
         if tier == 'thorough':
             for i, (p, q) in enumerate([(p, q) for p in small[:25] for q in small[:25]][:300]):
                 progs.append({'name': 'pair%d' % i, 'modes': [{'name': 'M', 'patterns': [{'p': p, 't': 1}, {'p': q, 't': 0}], 'transitions': []}], 'inputs': ['abab']})
+        # near-merge shapes: states that are almost, but not quite, equivalent (a minimizer that
+        # merges too much or too little shows up exactly here): words with a shared suffix whose
+        # middles differ by an alternation or class, inside one pattern or across patterns
+        letters = ['a', 'b', 'c', 'x', 'y']
+        nnm = 40 if tier == 'quick' else 400
+        for i in range(nnm):
+            l = [rng.choice(letters) for _ in range(6)]
+            shape = i % 5
+            if shape == 0:
+                pats = [{'p': '%s(%s|%s)%s|%s%s%s' % (l[0], l[1], l[2], l[3], l[4], l[1], l[3]), 't': 0}]
+            elif shape == 1:
+                pats = [{'p': '%s(%s|%s)%s' % (l[0], l[1], l[2], l[3]), 't': 1}, {'p': '%s%s%s' % (l[4], l[2], l[3]), 't': 0}]
+            elif shape == 2:
+                pats = [{'p': '%s[%s%s]%s|%s%s%s%s' % (l[0], l[1], l[2], l[3], l[4], l[1], l[3], l[5]), 't': 2}]
+            elif shape == 3:
+                pats = [{'p': '%s%s(%s|%s)+%s|%s%s%s*%s' % (l[0], l[1], l[2], l[3], l[4], l[5], l[1], l[2], l[4]), 't': 0},
+                        {'p': '[a-z]', 't': 1}]
+            else:
+                pats = [{'p': '(%s|%s)%s(%s|%s)' % (l[0], l[1], l[2], l[3], l[4]), 't': 3},
+                        {'p': '%s%s%s' % (l[1], l[2], l[5]), 't': 4}, {'p': '%s%s' % (l[0], l[2]), 't': 5}]
+            inp = ''.join(rng.choice(letters) for _ in range(8))
+            progs.append({'name': 'nm%d' % i, 'modes': [{'name': 'M', 'patterns': pats, 'transitions': []}], 'inputs': [inp]})
         for i in range(self.N[tier]):
             r = rng.random()
             if r < 0.5:
